@@ -76,6 +76,13 @@ def Seg.toC : Seg → Option CSeg
   | .field k => (Utf8.decode k).map CSeg.field
   | .index i => some (.index i)
 
+/-- an index segment holds an `isize`. -/
+def CSeg.inRange : CSeg → Bool
+  | .index i => decide (isizeMin ≤ i) && decide (i ≤ isizeMax)
+  | .field _ => true
+
+def CPath.inRange (p : CPath) : Bool := p.all CSeg.inRange
+
 /-- the character view of a path; `none` when a field is not valid UTF-8 (impossible in Rust). -/
 def Path.toC (p : Path) : Option CPath := p.mapM Seg.toC
 
@@ -158,6 +165,7 @@ inductive Step where
   | emit (s : Seg) (st : JitState)    -- `(Some(Some(segment)), st)`
   | invalid                           -- `(Some(Some(Invalid)), End)`
   | panic                             -- arithmetic overflow (overflow checks on)
+  deriving DecidableEq
 
 inductive PResult where
   | ok (p : Path)
